@@ -224,3 +224,16 @@ func RegisterWatcher(events interface{}, done interface{}) {}
 // Protect declares that object (a map or a pointer) may only be touched by a goroutine that holds mu
 // (lock-discipline check of the symbolic concurrent runs; no effect natively, where `go test -race` applies).
 func Protect(object interface{}, mu *sync.Mutex) {}
+
+// TOMLBytesFail is TOMLBytes with a chosen decoder outcome: 0 the text decodes to v; 1 a syntax error (the
+// library reports a *toml.DecodeError); 2 an unknown field (strict-mode error, not a DecodeError).
+func TOMLBytesFail(v interface{}, kind int) []byte {
+	b := TOMLBytes(v)
+	switch kind {
+	case 1:
+		return append(b, []byte("\n= broken [\n")...)
+	case 2:
+		return append([]byte("verif_unknown_field = 1\n"), b...)
+	}
+	return b
+}
